@@ -140,13 +140,22 @@ class HttpxTransport:
         # We pass a temporary request_args dict containing only the headers to the auth plugin,
         # as the auth plugin might expect other keys which are not relevant for header preparation.
         # The auth plugin is expected to modify the 'headers' key in the passed dict.
-        temp_request_args_for_auth = {"headers": prepared_headers.copy()}
+        # Query parameters and cookies travel along (as copies) so that plugins which authenticate through them
+        # (e.g. ApiKeyAuth with location "query" or "cookie") take effect on the real request as well.
+        temp_request_args_for_auth: dict[str, Any] = {
+            "headers": prepared_headers.copy(),
+            "params": dict(current_request_kwargs.get("params") or {}),
+            "cookies": dict(current_request_kwargs.get("cookies") or {}),
+        }
 
         if self._auth is not None:
             authenticated_args = await self._auth.authenticate_request(temp_request_args_for_auth)
             # Ensure 'headers' key exists and is a dict after authentication
             if "headers" in authenticated_args and isinstance(authenticated_args["headers"], dict):
                 prepared_headers = authenticated_args["headers"]
+            for key in ("params", "cookies"):
+                if authenticated_args.get(key):
+                    current_request_kwargs[key] = authenticated_args[key]
             else:
                 # Handle cases where auth plugin might not return headers as expected
                 # This could be an error or a specific design of an auth plugin.
@@ -182,11 +191,12 @@ class HttpxTransport:
             httpx.HTTPError: For network errors or invalid responses.
             HTTPError: For non-2xx HTTP responses.
         """
+        # This method handles default headers, request-specific headers, and authentication
+        # (an auth plugin may also contribute query parameters or cookies, which it places into kwargs)
+        prepared_headers = await self._prepare_headers(kwargs)
+
         # Prepare request arguments, excluding headers initially
         request_args: dict[str, Any] = {k: v for k, v in kwargs.items() if k != "headers"}
-
-        # This method handles default headers, request-specific headers, and authentication
-        prepared_headers = await self._prepare_headers(kwargs)
         request_args["headers"] = prepared_headers
 
         response = await self._client.request(method, url, **request_args)
